@@ -1,9 +1,12 @@
 package props
 
 import (
+	"context"
 	"errors"
 	"fmt"
+	"io"
 	"net/http"
+	"net/url"
 	"reflect"
 	"sync"
 	"sync/atomic"
@@ -25,12 +28,13 @@ type flaky struct {
 	hdr         map[string][]string
 	body        []byte
 	failLatency time.Duration
+	errKind     string
 	failHdr     map[string][]string   // returned together with the error of a failing attempt (servers answer 429 / 503 with headers)
 	latency     map[int]time.Duration // attempt index -> how long the wrapped getter takes to answer
 	maxCalls    int                   // safety valve against a spinning loop: after this many attempts, sleep a little per call
 }
 
-func (f *flaky) Get(url string) (map[string][]string, []byte, error) {
+func (f *flaky) Get(u string) (map[string][]string, []byte, error) {
 	f.mu.Lock()
 	n := len(f.attempts)
 	f.attempts = append(f.attempts, time.Since(f.start))
@@ -47,16 +51,34 @@ func (f *flaky) Get(url string) (map[string][]string, []byte, error) {
 		if f.failHdr != nil {
 			return f.failHdr, []byte("Too Many Requests"), errors.New("scripted failure: status 429")
 		}
+		switch f.errKind {
+		case "net-timeout":
+			return nil, nil, timeoutErr{}
+		case "url-timeout":
+			return nil, nil, &url.Error{Op: "Get", URL: u, Err: timeoutErr{}}
+		case "deadline":
+			return nil, nil, fmt.Errorf("fetch: %w", context.DeadlineExceeded)
+		case "eof":
+			return nil, nil, io.ErrUnexpectedEOF
+		}
 		return nil, nil, errors.New("scripted failure")
 	}
 	return f.hdr, f.body, nil
 }
+
+// timeoutErr is a net.Error whose Timeout() is true (what a stalled connection produces).
+type timeoutErr struct{}
+
+func (timeoutErr) Error() string   { return "i/o timeout" }
+func (timeoutErr) Timeout() bool   { return true }
+func (timeoutErr) Temporary() bool { return true }
 
 type retryCase struct {
 	timeout, cap time.Duration
 	failures     int           // -1 = forever
 	slowSuccess  time.Duration // the successful attempt takes this long to answer (it may straddle the deadline)
 	slowFailure  time.Duration // every failing attempt takes this long to answer
+	errKind      string        // how the wrapped getter's failures are typed: "" plain, "net-timeout", "url-timeout", "deadline", "eof"
 	retryAfter   string        // failing attempts come with a response header map carrying this Retry-After value ("date" = an HTTP date 5 s ahead)
 }
 
@@ -80,6 +102,7 @@ func runRetry(c retryCase) retryResult {
 	// the valve engages only once the busy-loop limit is exceeded anyway
 	f := &flaky{failures: c.failures, hdr: hdr, body: body, maxCalls: 10*int(c.timeout/effc) + 110}
 	f.failLatency = c.slowFailure
+	f.errKind = c.errKind
 	if c.retryAfter != "" {
 		v := c.retryAfter
 		if v == "date" {
@@ -142,26 +165,38 @@ func c20(x *mon.Ctx) {
 					continue
 				}
 				seen[k] = true
-				cases = append(cases, retryCase{to, cp, k, 0, 0, ""})
+				cases = append(cases, retryCase{to, cp, k, 0, 0, "", ""})
 			}
 		}
 	}
 	// a success that is delivered: immediately although the timeout is zero; or by an attempt that started before the deadline and answers after it
 	cases = append(cases,
-		retryCase{300 * time.Millisecond, 200 * time.Millisecond, 1, 250 * time.Millisecond, 0, ""},
-		retryCase{300 * time.Millisecond, 100 * time.Millisecond, 2, 250 * time.Millisecond, 0, ""},
-		retryCase{50 * time.Millisecond, 20 * time.Millisecond, 0, 120 * time.Millisecond, 0, ""},
-		retryCase{0, 20 * time.Millisecond, 0, 30 * time.Millisecond, 0, ""},
+		retryCase{300 * time.Millisecond, 200 * time.Millisecond, 1, 250 * time.Millisecond, 0, "", ""},
+		retryCase{300 * time.Millisecond, 100 * time.Millisecond, 2, 250 * time.Millisecond, 0, "", ""},
+		retryCase{50 * time.Millisecond, 20 * time.Millisecond, 0, 120 * time.Millisecond, 0, "", ""},
+		retryCase{0, 20 * time.Millisecond, 0, 30 * time.Millisecond, 0, "", ""},
 		// failures that are slow themselves (connect / read timeouts): the time spent inside the wrapped getter counts against the timeout
-		retryCase{300 * time.Millisecond, 20 * time.Millisecond, -1, 0, 100 * time.Millisecond, ""},
-		retryCase{300 * time.Millisecond, 1 * time.Millisecond, -1, 0, 50 * time.Millisecond, ""},
-		retryCase{time.Second, 100 * time.Millisecond, 40, 0, 150 * time.Millisecond, ""})
+		retryCase{300 * time.Millisecond, 20 * time.Millisecond, -1, 0, 100 * time.Millisecond, "", ""},
+		retryCase{300 * time.Millisecond, 1 * time.Millisecond, -1, 0, 50 * time.Millisecond, "", ""},
+		retryCase{time.Second, 100 * time.Millisecond, 40, 0, 150 * time.Millisecond, "", ""})
 	// failing attempts that come with response headers asking for a longer pause: the configured maximum still bounds every wait
 	cases = append(cases,
 		retryCase{timeout: time.Second, cap: 20 * time.Millisecond, failures: 3, retryAfter: "2"},
 		retryCase{timeout: time.Second, cap: 20 * time.Millisecond, failures: -1, retryAfter: "3"},
 		retryCase{timeout: time.Second, cap: 100 * time.Millisecond, failures: 2, retryAfter: "date"},
 		retryCase{timeout: 300 * time.Millisecond, cap: time.Millisecond, failures: 5, retryAfter: "1"})
+	// failures of every usual type (a silent network produces timeout-typed errors only): an error stays an error
+	for _, ek := range []string{"net-timeout", "url-timeout", "deadline", "eof"} {
+		cases = append(cases,
+			retryCase{timeout: 300 * time.Millisecond, cap: 20 * time.Millisecond, failures: -1, errKind: ek},
+			retryCase{timeout: 300 * time.Millisecond, cap: 20 * time.Millisecond, failures: 3, errKind: ek},
+			retryCase{timeout: 0, cap: 20 * time.Millisecond, failures: -1, errKind: ek})
+	}
+	// long runs of failures before the success (more than 32, more than 64 doublings of the initial delay)
+	cases = append(cases,
+		retryCase{timeout: time.Second, cap: 20 * time.Millisecond, failures: 35},
+		retryCase{timeout: time.Second, cap: 10 * time.Millisecond, failures: 70},
+		retryCase{timeout: 2 * time.Second, cap: 5 * time.Millisecond, failures: 140})
 	// the same configuration under a long and a short timeout (see the schedule-independence oracle below)
 	cases = append(cases,
 		retryCase{timeout: 30 * time.Second, cap: 10 * time.Second, failures: 1},
@@ -169,12 +204,12 @@ func c20(x *mon.Ctx) {
 		retryCase{timeout: 7 * time.Second, cap: 30 * time.Second, failures: 1})
 	// maximum retry delays that are not on the doubling ladder 4 s, 8 s, 16 s ... (a few seconds of wall clock, run in parallel)
 	cases = append(cases,
-		retryCase{6 * time.Second, 2200 * time.Millisecond, 1, 0, 0, ""},
-		retryCase{6 * time.Second, 3 * time.Second, 1, 0, 0, ""},
-		retryCase{6 * time.Second, 2500 * time.Millisecond, -1, 0, 0, ""})
+		retryCase{6 * time.Second, 2200 * time.Millisecond, 1, 0, 0, "", ""},
+		retryCase{6 * time.Second, 3 * time.Second, 1, 0, 0, "", ""},
+		retryCase{6 * time.Second, 2500 * time.Millisecond, -1, 0, 0, "", ""})
 	if !x.Quick() {
-		cases = append(cases, retryCase{12 * time.Second, 5 * time.Second, 2, 0, 0, ""}, retryCase{40 * time.Second, 9 * time.Second, 3, 0, 0, ""}, retryCase{30 * time.Second, 4100 * time.Millisecond, -1, 0, 0, ""})
-		cases = append(cases, retryCase{2 * time.Minute, 30 * time.Second, -1, 0, 0, ""}, retryCase{2 * time.Minute, 30 * time.Second, 3, 0, 0, ""})
+		cases = append(cases, retryCase{12 * time.Second, 5 * time.Second, 2, 0, 0, "", ""}, retryCase{40 * time.Second, 9 * time.Second, 3, 0, 0, "", ""}, retryCase{30 * time.Second, 4100 * time.Millisecond, -1, 0, 0, "", ""})
+		cases = append(cases, retryCase{2 * time.Minute, 30 * time.Second, -1, 0, 0, "", ""}, retryCase{2 * time.Minute, 30 * time.Second, 3, 0, 0, "", ""})
 	}
 	var mu sync.Mutex
 	results := make([]retryResult, len(cases))
@@ -201,6 +236,9 @@ func c20(x *mon.Ctx) {
 		}
 		if c.retryAfter != "" {
 			param += " failures-carry-Retry-After=" + c.retryAfter
+		}
+		if c.errKind != "" {
+			param += " failures-are=" + c.errKind
 		}
 		var probs []string
 		calm := r.late < slack/4
@@ -284,7 +322,7 @@ func c20(x *mon.Ctx) {
 	pairs := 0
 	for a, ca := range cases {
 		for b, cb := range cases {
-			if ca.cap != cb.cap || ca.failures != cb.failures || ca.failures < 0 || ca.slowSuccess != cb.slowSuccess || ca.slowFailure != cb.slowFailure || ca.retryAfter != cb.retryAfter || ca.timeout <= cb.timeout {
+			if ca.cap != cb.cap || ca.failures != cb.failures || ca.failures < 0 || ca.slowSuccess != cb.slowSuccess || ca.slowFailure != cb.slowFailure || ca.retryAfter != cb.retryAfter || ca.errKind != cb.errKind || ca.timeout <= cb.timeout {
 				continue
 			}
 			ra, rb := results[a], results[b]
